@@ -2522,7 +2522,9 @@ func cloneHeader(h http.Header) http.Header {
 	for k, vv := range h {
 		// ignore connection specific headers. For more information,
 		// see RFC 7540 section 8.1.2.2
-		if HopHeaders[k] {
+		// (HopHeaders is keyed by canonical names; a handler may have
+		// stored a non-canonical key directly into the map)
+		if HopHeaders[http.CanonicalHeaderKey(k)] {
 			continue
 		}
 
